@@ -529,6 +529,7 @@ func (s *server) ReadRows(req *btpb.ReadRowsRequest, stream btpb.Bigtable_ReadRo
 	var cb chunkBuilder
 	sendResponse := func() error {
 		// Reverse the lock while streaming the row out.
+		verifPoint("ReadRows.preWindow", stream.Context())
 		tbl.mu.RUnlock()
 		defer verifPoint("ReadRows.relocked", stream.Context())
 		defer tbl.mu.RLock()
@@ -1510,6 +1511,7 @@ func (t *table) gc(now bigtable.Timestamp, done <-chan struct{}, force bool) {
 		}
 
 		// Reverse lock; check if we should exit
+		verifPoint("gc.preWindow")
 		t.mu.Unlock()
 		defer verifPoint("gc.relocked")
 		defer t.mu.Lock()
